@@ -2,6 +2,8 @@
 //! re-executes one recorded case.
 
 pub mod args;
+#[cfg(feature = "likelysubtags")]
+pub mod conc;
 pub mod direction;
 pub mod features;
 pub mod history;
@@ -72,7 +74,7 @@ pub fn case_replayable(case: &Case) -> bool {
         Case::Input(_) | Case::Ops { .. } => true,
         // (cases of the feature-less build are decided by the second binary and cannot be
         // re-executed inside this one)
-        Case::Text(t) => !t.starts_with("vpair:unreplayable:") && !t.starts_with("direction:base:") && ["triple:", "pair:", "mpair:", "direction:", "arg:", "partsidx:", "vpair:"].iter().any(|p| t.starts_with(p)),
+        Case::Text(t) => !t.starts_with("vpair:unreplayable:") && !t.starts_with("direction:base:") && ["triple:", "pair:", "mpair:", "direction:", "arg:", "partsidx:", "vpair:", "conc:"].iter().any(|p| t.starts_with(p)),
     }
 }
 
@@ -113,6 +115,8 @@ pub fn replay_case(_ctx: &Ctx, sub: &'static str, case: &Case) -> Vec<(String, S
                 Err(e) => eprintln!("replay: {}", e),
             }
         }
+        #[cfg(feature = "likelysubtags")]
+        Case::Text(t) if t.starts_with("conc:") => conc::replay(_ctx, sub, t, &coll),
         Case::Text(t) if t.starts_with("partsidx:") => values::replay_parts(t, &coll),
         Case::Text(t) if t.starts_with("vpair:") => values::replay_vpair(t, &coll),
         Case::Text(t) if t.starts_with("arg:") => args::replay(t, &coll),
